@@ -165,8 +165,28 @@ def replay(ctx, payload):
         n, bad = props.c15_cells(ctx)
         print("first wrong cell now:", bad)
         return 1 if bad else 0
-    print("no CLI replay for kind", kind)
-    return 0
+    # generic: cases that carry a model case line are re-run through code and model;
+    # otherwise the property's CLI checks are run again on the current tree
+    status = 0
+    if payload.get("model_case"):
+        line = payload["model_case"]
+        if line.split(" ")[0] in ("covcheck", "skfdec", "unframe"):
+            print("model-only case line recorded:", line[:300])
+        else:
+            r = core.run_impl(ctx, [line], "rp")[0]
+            m, s = core.run_model(ctx, [line])[0]
+            ok = core.res_eq(r, m) and (s == "-" or core.res_eq(r, s))
+            print("case: ", line[:500]); print("impl: ", r[:500]); print("model:", m[:500]); print("spec: ", s[:500])
+            status |= 0 if ok else 1
+    from skaverif import props
+    spec = props.REGISTRY.get(ctx.prop)
+    if spec:
+        for fn in spec.get("cli", []):
+            res = fn(ctx, False)
+            if res.get("violation"):
+                print("violation reproduced by", fn.__name__, ":", str(res["violation"])[:1500])
+                status |= 1
+    return status
 
 
 # ----------------------------------------------------------------------------- C02 / C11 CLI checks
